@@ -44,6 +44,10 @@ def build_sequences(wd):
                 if i == 0 and wd.get("first_at_zero") and s["kind"] == "snv":
                     pos = 0                 # a variant on the very first base of the contig (VCF POS 1)
                 k, ln = s["kind"], s.get("len", 1)
+                if s.get("rep") and k in ("ins", "del"):
+                    ref, v_ = repeat_site(ref, pos, k, s["rep"])     # optional key: indel of one unit of a tandem repeat
+                    vs.append(v_)
+                    continue
                 if k == "del" and not W.deletion_unshiftable(ref, pos, ln):
                     ok = False
                     break
@@ -52,6 +56,27 @@ def build_sequences(wd):
                 break
         out.append((ref, vs))
     return out
+
+
+def repeat_site(ref, pos, kind, rep):
+    """rep = {"unit": primitive string, "n": copies}: the reference gets unit*n directly behind the anchor base at pos (anchor not
+    in the unit, base behind the run != first unit base, so the run has exactly n copies) and the site is the insertion / deletion
+    of ONE unit, left-aligned (the normalised representation: CIGARs of the error-free reads carry it at the same place)."""
+    unit, n = rep["unit"], rep["n"]
+    end = pos + 1 + len(unit) * n
+    assert end + 1 < len(ref) and len(unit) * n <= SP // 2
+    anchor = ([b for b in W.BASES if b not in unit and (pos == 0 or b != ref[pos - 1])] + [b for b in W.BASES if b not in unit])[0]
+    after = ([b for b in W.BASES if b != unit[0] and b != unit[-1] and b != ref[end + 1]] + [b for b in W.BASES if b not in unit])[0]
+    ref = ref[:pos] + anchor + unit * n + after + ref[end + 1:]
+    if kind == "ins":
+        return ref, W.Variant(pos, anchor, anchor + unit)
+    return ref, W.Variant(pos, anchor + unit, anchor)
+
+
+def rep_end(site, pos):
+    """first reference position behind the tandem repeat of a site (or None)"""
+    rp = site.get("rep") if site.get("kind") in ("ins", "del") else None
+    return pos + 1 + len(rp["unit"]) * rp["n"] if rp else None
 
 
 def materialise(wd, d):
@@ -138,6 +163,10 @@ def materialise(wd, d):
             m1, m2 = rng.randint(12, 18), rng.randint(12, 18)
             s = max(0, vs[i].pos - m1)
             e = min(len(ref), vs[j].pos + len(vs[j].ref) + m2)
+            re_ = rep_end(wd["chroms"][r["chrom"]]["sites"][j], vs[j].pos)
+            if re_ is not None:
+                # a read that stopped inside the repeat would be a copy of BOTH haplotypes: it reads through the run
+                e = min(len(ref), max(e, re_ + m2))
             if r.get("cut") and vs[j].kind == "del" and hp_alleles[j] == 0:
                 # the read carries the REF allele of the deletion and ENDS inside the deleted stretch (still an error-free copy)
                 e = vs[j].pos + 1 + min(r["cut"], len(vs[j].ref) - 2)
@@ -158,6 +187,27 @@ def materialise(wd, d):
                               "rg": "rg_" + r["sample"], "mate": {"ref": r["chrom"], "pos": p2}})
                 reads.append({"name": name, "flag": 1 | 2 | 128 | 16, "ref": r["chrom"], "pos": p2, "cigar": W.cigar_str(c2), "seq": s2,
                               "rg": "rg_" + r["sample"], "mate": {"ref": r["chrom"], "pos": p1}})
+            elif r.get("sites"):
+                # ONE alignment covering exactly the listed sites (any subset of first..last, "first"/"last" must be its ends):
+                # maximal runs of neighbouring sites are aligned stretches, everything between two runs lies in a reference skip (N)
+                idx = sorted(set(r["sites"]))
+                runs = [[idx[0], idx[0]]]
+                for i_ in idx[1:]:
+                    if i_ == runs[-1][1] + 1:
+                        runs[-1][1] = i_
+                    else:
+                        runs.append([i_, i_])
+                p0, cg, sq = seg(runs[0][0], runs[0][1])
+                cg = list(cg)
+                end = p0 + W.cigar_reflen(cg)
+                for a_, b_ in runs[1:]:
+                    p_, c_, s_ = seg(a_, b_)
+                    assert p_ > end
+                    cg += [("N", p_ - end)] + list(c_)
+                    sq += s_
+                    end = p_ + W.cigar_reflen(c_)
+                reads.append({"name": name, "flag": 0, "ref": r["chrom"], "pos": p0, "cigar": W.cigar_str(cg), "seq": sq,
+                              "rg": "rg_" + r["sample"]})
             elif r.get("gap"):
                 a, b = r["gap"]
                 p1, c1, s1 = seg(r["first"], a)
